@@ -24,7 +24,7 @@ Definition wf_e (e : option entry) : Prop :=
 
 Definition rs_ok (s : rrset) : Prop :=
   s_class s = cIN /\ s_type s <> tSOA /\ 0 <= s_name s /\ s_data s <> [] /\ ssorted (s_data s) /\
-  is_singleton (s_type s) = false.
+  is_singleton (s_type s) = false /\ kind_of (s_type s) (s_covers s) <> 2.
 
 Definition acc_ok (acc : list rrset) : Prop := Forall rs_ok acc /\ NoDup (map skey acc).
 
@@ -76,7 +76,7 @@ Lemma merge_rrset_add : forall e s r, wf_e e -> rs_ok s -> plain r ->
   merge e (s_ttl (rrset_add s r)) (s_data (rrset_add s r)) =
   add1 (Some (merge e (s_ttl s) (s_data s))) (r_ttl r) (r_data r).
 Proof.
-  intros e s r He (_ & _ & _ & Hne & Hs & Hsg) (_ & _ & _ & Httl & _).
+  intros e s r He (_ & _ & _ & Hne & Hs & Hsg & _) (_ & _ & _ & Httl & _).
   unfold rrset_add. cbn [s_ttl s_data]. rewrite (clamp_ok _ Httl), (rds_add_plain _ _ _ Hsg).
   destruct (s_data s) as [|d0 ds] eqn:Ed; [congruence|]. rewrite <- Ed in *.
   destruct e as [[t0 S0]|]; cbn [merge add1].
@@ -126,9 +126,9 @@ Lemma add_to_ok : forall r acc, plain r -> acc_ok acc -> acc_ok (add_to r acc).
 Proof.
   intros r acc Hp. induction acc as [|s acc IH]; intros [Hok Hnd]; cbn [add_to].
   - split; [constructor; [|constructor]|constructor; [intros []|constructor]].
-    destruct Hp as (Hc & Ht & Hn & Httl & Hsg). unfold rs_ok, single. cbn. repeat split; auto; [discriminate|apply ssorted_one].
+    destruct Hp as (Hc & Ht & Hn & Httl & Hsg & Hkd). unfold rs_ok, single. cbn. repeat split; auto; [discriminate|apply ssorted_one].
   - inversion Hok as [|? ? Hs Hok']; subst. inversion Hnd as [|? ? Hni Hnd']; subst.
-    pose proof Hp as (Hc & Ht & Hn & Httl & Hsg). pose proof Hs as (Hsc & Hst & Hsn & Hsne & Hss & Hssg).
+    pose proof Hp as (Hc & Ht & Hn & Httl & Hsg & Hkd). pose proof Hs as (Hsc & Hst & Hsn & Hsne & Hss & Hssg & Hskd).
     rewrite (same_rrset_key r s Hc Hsc). destruct (key_eqb (rkey r) (skey s)) eqn:E.
     + split.
       * constructor; [|assumption]. unfold rs_ok, rrset_add. cbn [s_class s_type s_name s_data].
@@ -209,10 +209,11 @@ Proof.
   intros x a b H k. rewrite !look_adds_fa, H. reflexivity.
 Qed.
 
-Lemma t_add_rs : forall z s, rs_ok s ->
+Lemma t_add_rs : forall z s, rs_ok s -> quiet z ->
   t_add false z s = Ok (zput (skey s) (merge (look z (skey s)) (s_ttl s) (s_data s)) z).
 Proof.
-  intros z s (Hc & Ht & _ & Hne & _ & Hsg). unfold t_add.
+  intros z s (Hc & Ht & _ & Hne & _ & Hsg & Hkd) Hq. unfold t_add.
+  rewrite node_put_id by (apply quiet_addable; [exact Hq|exact Hkd]).
   destruct (s_data s) as [|d ds] eqn:Ed; [congruence|]. rewrite <- Ed.
   rewrite Hc. cbn [Z.eqb cIN Pos.eqb negb].
   apply Z.eqb_neq in Ht. rewrite Ht. cbn [andb]. unfold merge, tmin.
@@ -224,29 +225,35 @@ Qed.
 Definition ast (u : bool) (rdt : Z) (p tz : zone) (ser : Z) (s0 : rrset) : st :=
   mkSt p (Some tz) rdt false ser u (Some s0) false false false false.
 
-Lemma step_rs_add : forall l u rdt p tz ser s0 s, rs_ok s ->
+Lemma step_rs_add : forall l u rdt p tz ser s0 s, rs_ok s -> quiet tz ->
   step l (ast u rdt p tz ser s0) s =
   (ast u rdt p (zput (skey s) (merge (look tz (skey s)) (s_ttl s) (s_data s)) tz) ser s0, None).
 Proof.
-  intros l u rdt p tz ser s0 s Hs. pose proof Hs as (Hc & Ht & Hn & _).
+  intros l u rdt p tz ser s0 s Hs Hq. pose proof Hs as (Hc & Ht & Hn & _).
   unfold ast, step. cbn [done txn expecting delmode].
   assert (E : (s_type s =? tSOA) = false) by (apply Z.eqb_neq; exact Ht).
   rewrite E. cbn [andb].
   assert (Z : in_zone (s_name s) = true) by (apply Z.leb_le; exact Hn).
-  rewrite Z. cbn [negb]. rewrite (t_add_rs tz s Hs). reflexivity.
+  rewrite Z. cbn [negb]. rewrite (t_add_rs tz s Hs Hq). reflexivity.
 Qed.
 
-Lemma loopn_addrs : forall l u rdt p tz ser s0, Forall rs_ok l ->
+Lemma loopn_addrs : forall l u rdt p tz ser s0, Forall rs_ok l -> quiet tz ->
   loopn (ast u rdt p tz ser s0) l = (ast u rdt p (addrs tz l) ser s0, None).
 Proof.
-  induction l as [|s l IH]; intros u rdt p tz ser s0 Hf; cbn [loopn addrs]; [reflexivity|].
-  inversion Hf as [|? ? Hs Hf']; subst. rewrite (step_rs_add _ _ _ _ _ _ _ _ Hs).
-  apply IH, Hf'.
+  induction l as [|s l IH]; intros u rdt p tz ser s0 Hf Hq; cbn [loopn addrs]; [reflexivity|].
+  inversion Hf as [|? ? Hs Hf']; subst. rewrite (step_rs_add _ _ _ _ _ _ _ _ Hs Hq).
+  apply IH; [exact Hf'|]. apply quiet_zput; [exact Hq|apply Hs].
+Qed.
+
+Lemma quiet_addrs : forall l tz, Forall rs_ok l -> quiet tz -> quiet (addrs tz l).
+Proof.
+  induction l as [|s l IH]; intros tz Hf Hq; cbn [addrs]; [exact Hq|].
+  inversion Hf as [|? ? Hs Hf']; subst. apply IH; [exact Hf'|]. apply quiet_zput; [exact Hq|apply Hs].
 Qed.
 
 Lemma single_ok : forall r, plain r -> rs_ok (single r).
 Proof.
-  intros r (Hc & Ht & Hn & Httl & Hsg). unfold rs_ok, single. cbn. repeat split; auto; [discriminate|apply ssorted_one].
+  intros r (Hc & Ht & Hn & Httl & Hsg & Hkd). unfold rs_ok, single. cbn. repeat split; auto; [discriminate|apply ssorted_one].
 Qed.
 
 (* how the records x of one message reach the zone: g = map single (IXFR, first AXFR message)
@@ -292,16 +299,15 @@ Proof.
     destruct (group_effect k x [] (look tz k) Hf A0 (Hz k)) as [H _]. exact H.
 Qed.
 
-Lemma step_final_full : forall u rdt p tz ser v, ttl_ok (v_ttl v) ->
+Lemma step_final_full : forall u rdt p tz ser v, ttl_ok (v_ttl v) -> quiet tz ->
   step Last (ast u rdt p tz ser (single (soa_rr v))) (single (soa_rr v)) =
   (mkSt (zput soakey (v_ttl v, [v_soa v]) tz) None rdt false ser u (Some (single (soa_rr v))) true false false false, None).
 Proof.
-  intros u rdt p tz ser v Httl. unfold step, ast. cbn [done txn incremental delmode soa set_delmode negb].
+  intros u rdt p tz ser v Httl Hq. unfold step, ast. cbn [done txn incremental delmode soa set_delmode negb].
   change ((s_type (single (soa_rr v)) =? tSOA) && (s_name (single (soa_rr v)) =? origin)) with true. cbv iota.
   rewrite soa_eqb, Z.eqb_refl. cbn [andb orb negb].
   rewrite soa_serial_single. cbn [expecting incremental negb andb].
-  unfold t_add, single, soa_rr, skey. cbn [s_class s_type s_name s_ttl s_data s_covers r_class r_type r_name r_ttl r_data r_covers].
-  rewrite (clamp_ok _ Httl). reflexivity.
+  rewrite t_add_soa by assumption. reflexivity.
 Qed.
 
 Lemma running_ast : forall rdt p tz ser s0, running (ast false rdt p tz ser s0).
@@ -310,21 +316,21 @@ Proof. intros. repeat split; try reflexivity; discriminate. Qed.
 (* the driver on a full transfer, message by message *)
 Lemma cont_full : forall ws one_rr g a rdt p tz ser v c,
   msg_parse_ok g -> msg_parse_ok (group one_rr) -> ttl_ok (v_ttl v) ->
-  Forall (header_ok rdt) ws -> Forall plain c -> zsorted tz ->
+  Forall (header_ok rdt) ws -> Forall plain c -> zsorted tz -> quiet tz ->
   a ++ concat (map w_records ws) = c ++ [soa_rr v] ->
   exists z' n, cont one_rr (loop (ast false rdt p tz ser (single (soa_rr v))) (g a)) ws = (Done z', n)
     /\ zeq z' (zput soakey (v_ttl v, [v_soa v]) (adds tz c)).
 Proof.
-  induction ws as [|w ws IH]; intros one_rr g a rdt p tz ser v c Hg Hg1 Httl Hh Hc Hz Hcat.
+  induction ws as [|w ws IH]; intros one_rr g a rdt p tz ser v c Hg Hg1 Httl Hh Hc Hz Hq Hcat.
   - cbn [map concat] in Hcat. rewrite app_nil_r in Hcat. subst a.
     destruct Hg as (G1 & G2 & G3). rewrite (G1 c (soa_rr v) Hc eq_refl).
-    rewrite loop_snoc, (loopn_addrs _ _ _ _ _ _ _ (G2 c Hc)), (step_final_full _ _ _ _ _ _ Httl).
+    rewrite loop_snoc, (loopn_addrs _ _ _ _ _ _ _ (G2 c Hc) Hq), (step_final_full _ _ _ _ _ _ Httl (quiet_addrs _ _ (G2 c Hc) Hq)).
     cbn [cont done pub]. eexists. eexists. split; [reflexivity|].
     intros k. rewrite !look_zput. destruct (key_eqb k soakey); [reflexivity|apply G3; assumption].
   - apply app_snoc_split in Hcat. destruct Hcat as [[c' [-> Hrest]]|[-> Hrest]].
     + apply Forall_app in Hc. destruct Hc as [Ha Hc'].
       destruct Hg as (G1 & G2 & G3).
-      rewrite (loop_loopn _ _ _ (loopn_addrs _ _ _ _ _ _ _ (G2 a Ha))).
+      rewrite (loop_loopn _ _ _ (loopn_addrs _ _ _ _ _ _ _ (G2 a Ha) Hq)).
       cbn [cont]. unfold ast at 1. cbn [done]. fold (ast false rdt p (addrs tz (g a)) ser (single (soa_rr v))).
       inversion Hh as [|? ? Hw Hws]; subst.
       rewrite drive_cons by solve_req. unfold from_wire.
@@ -332,14 +338,14 @@ Proof.
       cbn [map concat] in Hrest.
       assert (Hz1 : zsorted (addrs tz (g a))).
       { eapply zsorted_zeq; [apply G3; assumption|apply adds_sorted, Hz]. }
-      destruct (IH one_rr (group one_rr) (w_records w) rdt p (addrs tz (g a)) ser v c' Hg1 Hg1 Httl Hws Hc' Hz1 Hrest)
+      destruct (IH one_rr (group one_rr) (w_records w) rdt p (addrs tz (g a)) ser v c' Hg1 Hg1 Httl Hws Hc' Hz1 (quiet_addrs _ _ (G2 a Ha) Hq) Hrest)
         as [z' [n [Hn Hz']]].
       rewrite Hn. exists z', (S n). split; [reflexivity|].
       eapply zeq_trans; [exact Hz'|]. intros k. rewrite !look_zput.
       destruct (key_eqb k soakey); [reflexivity|]. rewrite adds_app.
       apply adds_zeq. apply G3; assumption.
     + destruct Hg as (G1 & G2 & G3). rewrite (G1 c (soa_rr v) Hc eq_refl).
-      rewrite loop_snoc, (loopn_addrs _ _ _ _ _ _ _ (G2 c Hc)), (step_final_full _ _ _ _ _ _ Httl).
+      rewrite loop_snoc, (loopn_addrs _ _ _ _ _ _ _ (G2 c Hc) Hq), (step_final_full _ _ _ _ _ _ Httl (quiet_addrs _ _ (G2 c Hc) Hq)).
       cbn [cont done pub]. eexists. eexists. split; [reflexivity|].
       intros k. rewrite !look_zput. destruct (key_eqb k soakey); [reflexivity|apply G3; assumption].
 Qed.
@@ -395,7 +401,7 @@ Proof.
   rewrite (first_message_axfr z0 ser w (soa_rr v) a Hw Hr) by (split; reflexivity).
   destruct Hv as [Httl Hwf].
   destruct (cont_full ws' false (map single) a tAXFR z0 [] (match ser with Some sv => sv | None => 0 end) v
-              (body (v_rest v)) parse_single_ok parse_group_ok Httl Hws (body_plain _ Hwf) zsorted_nil Hcat)
+              (body (v_rest v)) parse_single_ok parse_group_ok Httl Hws (body_plain _ Hwf) zsorted_nil quiet_nil Hcat)
     as [z' [n [Hn Hz']]].
   exists z', n. split; [exact Hn|]. apply full_target; [split; assumption|exact Hz'].
 Qed.
@@ -418,7 +424,7 @@ Proof.
   rewrite E. cbn [andb].
   assert (Z : in_zone (s_name (single r)) = true) by (apply Z.leb_le; exact Hn).
   rewrite Z. cbn [negb delmode set_txn set_delmode set_expecting set_incremental].
-  rewrite (t_add_single [] r Hp). reflexivity.
+  rewrite (t_add_single [] r Hp quiet_nil). reflexivity.
 Qed.
 
 Lemma cont_fallback : forall ws a p tz ser v r c,
@@ -436,6 +442,7 @@ Proof.
     destruct (cont_full [] true (map single) (c ++ [soa_rr v]) tIXFR p (adds [] [r]) ser v c
                 parse_single_ok parse_group_true_ok Httl Hh Hc) as [z' [n [Hn Hz']]].
     { apply adds_sorted, zsorted_nil. }
+    { apply quiet_adds; [constructor; [exact Hr|constructor]|exact quiet_nil]. }
     { cbn. rewrite app_nil_r. reflexivity. }
     exists z', n. split; [exact Hn|exact Hz'].
   - destruct a as [|y a].
@@ -454,6 +461,7 @@ Proof.
       destruct (cont_full (w :: ws) true (map single) a tIXFR p (adds [] [r]) ser v c
                   parse_single_ok parse_group_true_ok Httl Hh Hc) as [z' [n [Hn Hz']]].
       { apply adds_sorted, zsorted_nil. }
+      { apply quiet_adds; [constructor; [exact Hr|constructor]|exact quiet_nil]. }
       { assumption. }
       exists z', n. split; [exact Hn|exact Hz'].
 Qed.
